@@ -15,7 +15,7 @@ func init() {
 			ruleU3(c)
 			ruleL1(c)
 		},
-		explanation: "Decides the structure around the runtime's update callback: the callback stored in the adaptation is called from exactly one place and there with the adaptation lock held — the same lock under which every other request touches the plugin list and calls plugins, hence mutual exclusion; the plugin's update list reaches the callback unchanged (UpdateContainers request -> updateContainers -> callback) and the callback's failed list and error are returned unchanged in the response; on the stub side the argument is sent as the request's Update and the response's Failed list and the RPC error are returned; a stub that has not been started tests its runtime client first and returns ErrNoService without making the call.",
+		explanation: "Decides the structure around the runtime's update callback: the callback stored in the adaptation is called from exactly one place and there with the adaptation lock held — the same lock under which every other request touches the plugin list and calls plugins, hence mutual exclusion; the plugin's update list reaches the callback unchanged (UpdateContainers request -> updateContainers -> callback) and the callback's failed list and error are returned unchanged in the response; on the stub side the argument is sent as the request's Update and the response's Failed list and the RPC error are returned; a stub that has not been started tests its runtime client first and returns ErrNoService without making the call. The stub's call carries no deadline of its own; every relay call of a request method is under the adaptation lock whatever list it iterates.",
 		notDecided: []string{
 			"exactly-once delivery over the transport",
 			"what the runtime's callback does",
